@@ -546,7 +546,8 @@ def gen_config(rng: common.Rng, prog: dict, out_ranks: list[int]) -> dict:
     elif r < 40:
         cfg["output_names"] = [f"res_{j}" for j in range(n_out + 1)]
         cfg["invalid"] = "output_names wrong length"
-    elif r < 45 and cfg.get("input_names") and "invalid" not in cfg:
+    elif r < 45 and cfg.get("input_names") and "invalid" not in cfg and \
+            all(l["op"] in ("scale", "sum", "cmp", "neg_t", "cast_i32") for l in prog["leaves"]):
         cfg["output_names"] = [cfg["input_names"][0]] + [f"res_{j}" for j in range(1, n_out)]
         cfg["invalid"] = "output name equals an input name"
     elif r < 49 and "input_names" not in cfg:
@@ -607,9 +608,18 @@ def oracle(prog: dict, cfg: dict, exp_in, exp_out, model) -> list[dict]:
     nchw_out = set(cfg.get("outputs_as_nchw", []))
     # -- inputs: one per positional argument, in order
     if len(gin) != n_in:
-        missing = [i for i in range(n_in)
-                   if not any(g["name"] in (f"in_{i}", f"in_{i}_nchw", (cfg.get("input_names") or [None] * n_in)[i])
-                              for g in gin)]
+        custom = cfg.get("input_names") or [None] * n_in
+        matched: set = set()
+        unknown = 0
+        for g in gin:
+            hit = [i for i in range(n_in) if g["name"] in (f"in_{i}", f"in_{i}_nchw", custom[i])]
+            if hit:
+                matched.add(hit[0])
+            else:
+                unknown += 1          # e.g. an input renamed through an aliased output
+        free_used = [i for i in range(n_in) if i not in matched and prog["used"][i]]
+        matched.update(free_used[:unknown])
+        missing = [i for i in range(n_in) if i not in matched]
         dev.append({"kind": "input_count", "expected": n_in, "got": [g["name"] for g in gin],
                     "dropped": missing, "dropped_are_nchw_flagged": all(i in nchw_in for i in missing),
                     "dropped_are_unused": all(not prog["used"][i] for i in missing)})
@@ -708,6 +718,16 @@ def run_values(prog: dict, cfg: dict, exp_in, model, rng: common.Rng) -> Optiona
     return None
 
 
+def _leaf_op_of_output(prog: dict, j: int) -> str:
+    leaves = prog["leaves"]
+    if prog["tree"] == "dict":        # tree_leaves of a dict come in key order: k1 < k2 < ... = reversed
+        leaves = list(reversed(leaves))
+    l = leaves[j] if j < len(leaves) else {"op": "?"}
+    while l.get("op") == "dup":
+        l = prog["leaves"][l["of"]]
+    return l.get("op", "?")
+
+
 def classify_failure(prog: dict, cfg: dict, err: Exception) -> dict:
     """A raise on a VALID configuration: which known pattern is it?"""
     msg = str(err)
@@ -749,6 +769,8 @@ def directed_cases() -> list:
         (_p(["vec"], [True], [L("input", 0), L("scale", 0)]), {"output_names": ["res_0", "res_1"]}),
         # complex result with the NCHW output flag (known: trailing pair dimension lost)
         (_p(["img"], [True], [L("complex", 0)], "single"), {"outputs_as_nchw": [0]}),
+        # float16 result of a unary op (known: declared FLOAT)
+        (_p(["f16"], [True], [L("neg_t", 0)], "single"), {}),
         # all result classes, both precisions, nested result
         (_p(["vec", "int", "bool"], [True, True, True],
             [L("cmp", 0), L("cast_i32", 0), L("cast_i8", 0), L("complex", 0), L("cast_f16", 0), L("scale", 1),
@@ -873,6 +895,8 @@ def corr_programs(chk: Check, rng: common.Rng, n: int, batch: Batch) -> dict:
                     all(nm in out_req for nm in set(real_in_names) & set(real_out_names)) and \
                     len(set(real_in_names)) == len(real_in_names) and len(set(real_out_names)) == len(real_out_names):
                 key = {"kind": "aliased_output_renames_input"}
+            elif d["kind"] == "output_dtype" and d["jax"] == "float16" and d["declared"] == 1:
+                key = {"kind": "half_result_declared_float", "op": _leaf_op_of_output(prog, d["index"])}
             elif d["kind"] in ("output_rank", "output_value") and d.get("index") in set(cfg.get("outputs_as_nchw", [])) \
                     and exp_out[d["index"]]["dtype"].kind == "c":
                 key = {"kind": "complex_output_as_nchw"}
@@ -990,7 +1014,7 @@ def run(chk: Check) -> None:
     ]
     chk.coverage["rule"] = (
         "tables: complete finite domains (exhaustive). Helper correspondences: seeded small graphs / name lists "
-        "(non-trivial = something unused / a request present). Programs: 17 directed cases + seeded programs "
+        "(non-trivial = something unused / a request present). Programs: 18 directed cases + seeded programs "
         "(1-3 inputs of 9 kinds, used/unused, 1-4 result leaves of 14 kinds incl. duplicates, inputs, constants, "
         "complex; 5 result-tree shapes) x configurations (precision, NCHW in/out, valid/invalid input/output names); "
         "every case is distinct by its full description")
